@@ -50,4 +50,39 @@ theorem outputsWith_eq_expected (ops : List Op) : ∀ s : State,
       simp only [outputsWith, stepWith, framesOf, renderWith_eq_spec, expected]
       rw [ih]
 
+/-- Whatever a render transmits or deletes was drawn: if every placement in the lists and every `draw` of the
+    history has a property, so has every placement in every output. -/
+theorem outputsWith_good (same : Placement → Placement → Bool) (Good : Placement → Prop) :
+    ∀ (ops : List Op) (s : State),
+      (∀ p ∈ s.next, Good p) → (∀ p ∈ s.last, Good p) → (∀ p, Op.draw p ∈ ops → Good p) →
+      ∀ o ∈ outputsWith same s ops, (∀ p ∈ o.1, Good p) ∧ (∀ p ∈ o.2, Good p) := by
+  intro ops
+  induction ops with
+  | nil => intro s _ _ _ o ho; simp [outputsWith] at ho
+  | cons op rest ih =>
+    intro s hn hl hd o ho
+    have hd' : ∀ p, Op.draw p ∈ rest → Good p := fun p hp => hd p (List.mem_cons_of_mem _ hp)
+    cases op with
+    | draw p =>
+      simp only [outputsWith, stepWith] at ho
+      refine ih ⟨s.next ++ [p], s.last, s.refresh⟩ ?_ hl hd' o ho
+      intro q hq
+      rcases List.mem_append.mp hq with h | h
+      · exact hn q h
+      · have : q = p := by simpa using h
+        rw [this]; exact hd p (List.mem_cons_self ..)
+    | clear =>
+      simp only [outputsWith, stepWith] at ho
+      exact ih ⟨[], s.last, s.refresh⟩ (fun q hq => by cases hq) hl hd' o ho
+    | render =>
+      simp only [outputsWith, stepWith, renderWith, List.mem_cons] at ho
+      rcases ho with rfl | ho
+      · exact ⟨fun p hp => hl p (List.mem_filter.mp hp).1, fun p hp => hn p (List.mem_filter.mp hp).1⟩
+      · exact ih ⟨s.next, s.next, false⟩ hn hn hd' o ho
+    | refresh =>
+      simp only [outputsWith, stepWith, renderWith, List.mem_cons] at ho
+      rcases ho with rfl | ho
+      · exact ⟨fun p hp => hl p (List.mem_filter.mp hp).1, fun p hp => hn p (List.mem_filter.mp hp).1⟩
+      · exact ih ⟨s.next, s.next, false⟩ hn hn hd' o ho
+
 end VaxisModel.Lemmas.Placements
